@@ -69,7 +69,7 @@ class World(object):
     def present(self):
         return os.path.exists(self.path)
 
-    def fresh_device(self, detect, rw):
+    def fresh_device(self, detect, rw, how="explicit"):
         for t in self.files:
             if not t.closed:
                 t._f.close()
@@ -79,6 +79,12 @@ class World(object):
             os.unlink(self.path)
         self.new_node()
         self.fs.reset(None)
+        # detection is on unless switched off: the default constructor and utils.init_device give a
+        # device with detection enabled just as the explicit flag does
+        if detect and how == "default":
+            return self.sd.SCSIDevice(self.path, rw)
+        if detect and how == "init_device":
+            return mod("pyscsi.utils").init_device(self.path, read_write=rw)
         return self.sd.SCSIDevice(self.path, readwrite=rw, detect_replugged=detect)
 
     def obs(self, out, ncalls_before):
@@ -111,10 +117,10 @@ class Boom(Exception):
     pass
 
 
-def run_history(w, detect, rw, acts):
+def run_history(w, detect, rw, acts, how="explicit"):
     """drive one history; returns the events (env actions that do not apply are skipped)"""
     ev = [{"a": "reset", "detect": detect}]
-    dev = w.fresh_device(detect, rw)
+    dev = w.fresh_device(detect, rw, how)
     tur = cmds.klass("TestUnitReady")(dev.opcodes.TEST_UNIT_READY)
     closed = False
     armed = False
@@ -239,8 +245,8 @@ def run(chk, replay=None):
                          tuple(rng.choice(ALPHA[:5]) for _ in range(rng.randint(5, 40))) + (rng.choice(ALPHA[5:]),)))
         events = []
         index = []           # event index -> history
-        for h in hist:
-            e = run_history(w, *h)
+        for hi, h in enumerate(hist):
+            e = run_history(w, *h, how=("explicit", "default", "init_device")[hi % 3])
             index += [h] * len(e)
             events += e
             ev.case(h)
